@@ -17,7 +17,10 @@ CONSTANTS
   DevWriteLock = FALSE
   DevRouteFirst = FALSE
   DevCleanupFirst = FALSE
-  DevLegRegistered = FALSE
+  RegLegs = {}
+  DevIdleSweep = FALSE
+  DevFwdNoEof = FALSE
+  SrcKinds = {"direct"}
   DevBufio = TRUE
   AttachKinds = {"xnode"}
   HoldOn = FALSE
